@@ -234,6 +234,27 @@ func (workingMem *WorkingMemory) Clone(cloneTable *pkg.CloneTable) (*WorkingMemo
 	return nil, fmt.Errorf("clone not equals the origin")
 }
 
+// RemoveUnreachable drops every expression, expression atom and variable that is not listed in the catalog,
+// that is, every node no rule entry of the knowledge base refers to.
+// Such nodes are left behind by rule entries that were parsed but then rejected.
+func (workingMem *WorkingMemory) RemoveUnreachable(cat *Catalog) {
+	for key, expr := range workingMem.expressionSnapshotMap {
+		if _, ok := cat.Data[expr.AstID]; !ok {
+			delete(workingMem.expressionSnapshotMap, key)
+		}
+	}
+	for key, exprAtm := range workingMem.expressionAtomSnapshotMap {
+		if _, ok := cat.Data[exprAtm.AstID]; !ok {
+			delete(workingMem.expressionAtomSnapshotMap, key)
+		}
+	}
+	for key, variable := range workingMem.variableSnapshotMap {
+		if _, ok := cat.Data[variable.AstID]; !ok {
+			delete(workingMem.variableSnapshotMap, key)
+		}
+	}
+}
+
 // IndexVariables will index all expression and expression atoms that contains a speciffic variable name
 func (workingMem *WorkingMemory) IndexVariables() {
 	if AstLog.Level <= logger.DebugLevel {
